@@ -183,12 +183,13 @@ Qed.
 (** [R] is an isomorphism between (parts of) the diagrams stored in [s1] and
     [s2]: a bisimulation (DD/Iso.v: terminals with terminals, nodes with nodes,
     children related again, one-to-one) that moreover relates only terminals
-    of the same value, nodes of the same level, and child edges with the same
-    complement tag.  No node id is compared. *)
+    of the same value (the value code of the single BCDD terminal carries no
+    meaning and is not compared), nodes of the same level, and child edges
+    with the same complement tag.  No node id is compared. *)
 Record iso (s1 s2 : snap) (R : ref -> ref -> Prop) : Prop := mkIso {
   iso_bisim : bisim s1 s2 R;
   iso_level : forall a b, R a b -> rlevel s1 a = rlevel s2 b;
-  iso_term : forall t u, R (RT t) (RT u) -> term_val s1 t = term_val s2 u;
+  iso_term : forall t u, R (RT t) (RT u) -> s_kind s1 <> KBcdd -> term_val s1 t = term_val s2 u;
   iso_tags : forall a b n1 n2, R (RN a) (RN b) ->
     find_node s1 a = Some n1 -> find_node s2 b = Some n2 ->
     map etag (nchildren n1) = map etag (nchildren n2)
@@ -205,7 +206,7 @@ Proof.
   intros s1 s2 B1 B2 Hl. constructor.
   - apply (same_den_bisim s1 s2 B1 B2 Hl).
   - apply (same_den_level s1 s2 B1 B2 Hl).
-  - intros t u [phi [[_ D1] [_ D2]]].
+  - intros t u [phi [[_ D1] [_ D2]]] _.
     specialize (D1 (fun _ => 0) ltac:(intros l; lia)). specialize (D2 (fun _ => 0) ltac:(intros l; lia)).
     rewrite semk_T in D1, D2. congruence.
   - intros a b n1 n2 _ E1 E2.
